@@ -63,7 +63,11 @@ func genC15Project(c *orch.Ctx, i int) *synth.Project {
 		cc.Methods = nil
 		nm := 1 + r.Intn(5)
 		for mi := 0; mi < nm; mi++ {
-			m := synth.Method{Name: fmt.Sprintf("M%d%c", ci, 'A'+mi), Verb: []string{"GET", "GET", "POST"}[r.Intn(3)], File: r.Intn(len(cc.Files))}
+			name := fmt.Sprintf("M%d%c", ci, 'A'+mi)
+			if r.Intn(3) == 0 {
+				name = fmt.Sprintf("Shared%c", 'A'+mi) // the same method name in several controllers
+			}
+			m := synth.Method{Name: name, Verb: []string{"GET", "GET", "POST"}[r.Intn(3)], File: r.Intn(len(cc.Files))}
 			ns := 1 + r.Intn(3)
 			np := 0
 			for s := 0; s < ns; s++ {
